@@ -361,6 +361,20 @@ if "C20" in CLAIMED:
         "operators proved equal to the macro-shaped code on int16 (add, sub, abs, mult, mult_r, L_mult, L_add, norm, div; the macro GSM_MULT_R differs from mult_r only at (MIN, MIN), never evaluated "
         "there by the decoder; SfProps/C20Gsm.lean).")
 
+CLAIMED["C09"]["text"] += (
+    " Round 5 (gapb): twin runs with refused calls of every class (positions, audio, every metadata setter over-sized / under-sized / lying / NULL / late, undefined commands) interleaved "
+    "before the metadata, after it, between the audio writes and before the close, for every writable (container, codec) in SFM_WRITE and SFM_RDWR; the base history is the twin without exactly "
+    "the calls the library refused; every later answer, the bytes of the closed file and info / metadata / audio of the re-opened file must agree (vlib/c09twin.py; Lean predicate Sf.AbsTwin.twinOk "
+    "decides, `sfmodel abs-twin`; theorems SfProps/C09Twin.lean `invalid_calls_do_not_change_closed_file`, `twinOk_meaning`; KF-C09-CHMAP-REFUSED-KEPT: SfProps/C09Chmap.lean).")
+CLAIMED["C17"]["text"] += (
+    " Round 5 (gapb): the grid's handle-state dimension includes the ROUTE -- sf_open on a path, sf_open_fd on a descriptor, sf_open_fd on a pipe (psf->virtual_io = 0, non-seekable) x {r, w, rw} x "
+    "{fresh, used} x {WAV pcm16, WAV float, AIFF, RAW; pipe: RAW, AU} (flavour suffix @path / @fd / @pipe, harness/grid_c17.c); theorems SfProps/C17Routes.lean.")
+CLAIMED["C18"]["text"] += (
+    " Round 5 (gapb): stale-PEAK campaign (vlib/c18stale.py): files whose PEAK chunk no longer describes the samples -- seek back + overwrite in write mode, overwrite and SFC_FILE_TRUNCATE through "
+    "SFM_RDWR, chunk patched in the file bytes -- SFC_CALC_* == maxima of the stored samples on r and rw handles, SFC_GET_* == the chunk in the file; WAV / RIFX histories line by line against the "
+    "Lean handle model; theorems SfProps/C18Stale.lean `calc_ignores_peak_chunk`, `stale_peak_by_overwrite`.")
+
+
 def main():
     checks = []
     for p in PROPS:
